@@ -5,9 +5,11 @@ From M Require BufProofs.
 From M Require FpStr.
 From M Require IntFmtProofs.
 From M Require Tie.
+From M Require CopyText.
 From M Require BufModel.
 From M Require FmtModel.
 From M Require GFmt.
+From M Require ParserModel.
 Import ListNotations.
 
 Module T_number_to_str_bounded. Import BufProofs. Local Open Scope bool_scope. Local Open Scope Z_scope.
@@ -99,4 +101,25 @@ Theorem C15_tie_float_formats :
 Proof. exact (@Tie.tie_float_formats). Qed.
 End T_tie_float_formats.
 Definition C15_tie_float_formats := @T_tie_float_formats.C15_tie_float_formats.
+
+Module T_param_text_bounded. Import CopyText. Local Open Scope bool_scope. Local Open Scope Z_scope.
+Import ParserModel. Local Open Scope Z_scope.
+Local Open Scope Z_scope.
+Theorem C15_param_text_bounded :
+  forall c buflen m,
+  let '(c1, ok, out, nul) := param_text c buflen m in
+  Z.of_nat (length out) <= Z.max 0 buflen /\ (nul = true -> Z.of_nat (length out) < buflen).
+Proof. exact (@CopyText.param_text_bounded). Qed.
+End T_param_text_bounded.
+Definition C15_param_text_bounded := @T_param_text_bounded.C15_param_text_bounded.
+
+Module T_param_text_len0. Import CopyText. Local Open Scope bool_scope. Local Open Scope Z_scope.
+Import ParserModel. Local Open Scope Z_scope.
+Local Open Scope Z_scope.
+Theorem C15_param_text_len0 :
+  forall c m,
+  let '(c1, ok, out, nul) := param_text c 0 m in out = [] /\ nul = false.
+Proof. exact (@CopyText.param_text_len0). Qed.
+End T_param_text_len0.
+Definition C15_param_text_len0 := @T_param_text_len0.C15_param_text_len0.
 
